@@ -116,17 +116,31 @@ def rbits(r, n):
     return track(bitarray([r.getrandbits(1) for _ in range(n)]))
 
 
+_MODE = {"mutable": False}
+
+
+def wrap(b):
+    """a byte buffer handed to the library: immutable bytes, or - in the '~m' variant of a signature - a caller-owned
+    bytearray whose contents must be the same after the call"""
+    if _MODE["mutable"]:
+        return track(bytearray(b))
+    return b
+
+
 def rbytes(r, n):
-    return bytes(r.getrandbits(8) for _ in range(n))
+    return wrap(bytes(r.getrandbits(8) for _ in range(n)))
 
 
 def build():
     """returns dict name -> thunk; thunk() -> (result, [argument buffers], mutates_args_by_contract)"""
     S = {}
 
-    def add(name, fn, n=3, in_place=False):
+    def add(name, fn, n=3, in_place=False, mutable=True):
         for k in range(n):
             S[f"{name}#{k}"] = (fn, f"{name}#{k}", in_place)
+        if mutable and not in_place:
+            # the same inputs as #0 with every byte buffer passed as a caller-owned bytearray
+            S[f"{name}#0~m"] = (fn, f"{name}#0", in_place)
 
     # ---------------------------------------------------------------- CRC
     def crc8(r):
@@ -282,8 +296,8 @@ def build():
             if not samples:
                 return "no-sample", []
             C = getattr(importlib.import_module(mod), clsname)
-            s = r.choice(samples)
-            a = track(bytes_to_bits(s))
+            s = wrap(r.choice(samples))
+            a = track(bytes_to_bits(bytes(s)))
             try:
                 o = C.from_bits(a)
                 return (o, o.as_bits(), repr(o)), [a]
@@ -318,7 +332,7 @@ def build():
             from okdmr.dmrlib.etsi.layer2.elements.burst_types import BurstTypes
             if not samples:
                 return "no-sample", []
-            s = r.choice(samples)
+            s = wrap(r.choice(samples))
             try:
                 b = Burst.from_bytes(s, burst_type=r.choice([BurstTypes.DataAndControl, BurstTypes.Vocoder]))
                 return (b.as_bytes(), repr(b), b.data), [s]
@@ -339,7 +353,7 @@ def build():
             C = {"hdap": HDAP, "hrnp": HRNP, "hstrp": HSTRP}[what]
             if not samples:
                 return "no-sample", []
-            s = r.choice(samples)
+            s = wrap(r.choice(samples))
             try:
                 o = C.from_bytes(s)
                 return (o, o.as_bytes() if o is not None else None, repr(o)), [s]
@@ -359,7 +373,7 @@ def build():
             from okdmr.dmrlib.etsi.layer2.burst import Burst
             if not samples:
                 return "no-sample", []
-            s = r.choice(samples)
+            s = wrap(r.choice(samples))
             try:
                 b = Burst.from_hytera_ipsc(s)
                 return (type(b).__name__, b.as_bytes(), b.source_radio_id, b.target_radio_id, b.timeslot, repr(b.hytera_ipsc)), [s]
@@ -385,10 +399,47 @@ def build():
         from okdmr.dmrlib.hytera.pdu.radio_ip import RadioIP
         raw = LocationProtocol(opcode=LocationProtocolSpecificService.StandardRequest, request_id=r.randrange(1 << 31),
                                radio_ip=RadioIP(r.randrange(1 << 24))).as_bytes()
+        raw = wrap(raw)
         o = HDAP.from_bytes(raw)
         return (o, o.as_bytes()), [raw]
 
     add("lp_request", lp_request, 2)
+
+    def hytera_generated(idx):
+        """every implemented RRS / LP / TMP / RCP opcode with generated field values (the builders of the C12 driver): parse the
+        serialised PDU; different instances of one family carry different values, so that state leaking from one decode
+        into the next (shared default containers) shows"""
+        def f(r):
+            from harness.drivers import c12
+            from okdmr.dmrlib.hytera.pdu.hdap import HDAP
+            fam, opname, build = c12.builders()[idx]
+            raw = wrap(build(r).as_bytes())
+            o = HDAP.from_bytes(raw)
+            return (o, o.as_bytes(), repr(o)), [raw]
+        return f
+
+    def hytera_default_built(idx):
+        """objects of the same opcode built with as few arguments as the constructor accepts (default arguments)"""
+        def f(r):
+            from harness.drivers import c12
+            fam, opname, build = c12.builders()[idx]
+            o = build(r)
+            try:
+                d = type(o)(opcode=o.opcode)
+                return (d, d.as_bytes(), repr(d)), []
+            except Exception as ex:  # noqa: a constructor that needs more than the opcode
+                return ex, []
+        return f
+
+    try:
+        from harness.drivers import c12 as _c12
+        _nb = len(_c12.builders())
+    except Exception:  # noqa
+        _nb = 0
+    for i in range(_nb):
+        fam, opname, _ = _c12.builders()[i]
+        add(f"gen_{fam}_{opname}", hytera_generated(i), 2, mutable=(i % 4 == 0))
+        add(f"dflt_{fam}_{opname}", hytera_default_built(i), 1, mutable=False)
 
     # ---------------------------------------------------------------- Motorola
     def mbxml():
@@ -398,7 +449,7 @@ def build():
             from okdmr.dmrlib.motorola.mbxml import MBXML
             if not samples:
                 return "no-sample", []
-            s = r.choice(samples)
+            s = wrap(r.choice(samples))
             try:
                 docs = MBXML.from_bytes(s)
                 return ([MBXML.as_bytes(d) for d in docs], [d.as_xml() for d in docs]), [s]
@@ -439,7 +490,7 @@ def build():
             C = getattr(importlib.import_module(mod), cls)
             if not samples:
                 return "no-sample", []
-            s = r.choice(samples)
+            s = wrap(r.choice(samples))
             try:
                 o = C.from_bytes(s)
                 return (o.as_bytes(), repr(o)), [s]
@@ -448,6 +499,7 @@ def build():
         return f
 
     add("ars", tms_ars("motorola/test_ars.py", "okdmr.dmrlib.motorola.automatic_registration_service", "AutomaticRegistrationService"), 4)
+    add("tms", tms_ars("motorola/test_tms.py", "okdmr.dmrlib.motorola.text_messaging_service", "TextMessagingService"), 4)
 
     # ---------------------------------------------------------------- utils
     def utils(r):
@@ -463,6 +515,7 @@ def run_signature(S, name):
     """execute one signature: returns (digest of result, argument buffers intact?, short rendering)"""
     fn, key, in_place = S[name]
     r = rng_for(key)
+    _MODE["mutable"] = name.endswith("~m")
     _TRACK.clear()
     try:
         res, _ = fn(r)
